@@ -134,11 +134,18 @@ func NewParsePacket(data []byte) (*ParsePacket, error) {
 	// convert to absolute
 	endIndex += startIndex + 1
 	query := data[startIndex:endIndex]
+	if len(data) < endIndex+2 {
+		// no room for the number of parameter types
+		return nil, ErrPacketTruncated
+	}
 	numParams := paramsNum(data[endIndex : endIndex+2])
 	endIndex += 2
 	var params []objectID
 	if endIndex < len(data) {
 		for i := 0; i < numParams.ToInt(); i++ {
+			if len(data) < endIndex+4 {
+				return nil, ErrPacketTruncated
+			}
 			params = append(params, data[endIndex:endIndex+4])
 			endIndex += 4
 		}
